@@ -58,7 +58,7 @@ for name in sorted(PLAN):
         rows.append(f"| {name} | {first} | {by or '-'} | {miss or '-'} |")
 with open('SENSITIVITY.md', 'w') as f:
     f.write('# Sensitivity: seeded changes vs checks (quick tier, VERIF_SEED=1)\n\n'
-            'Every change below was written by an independent sub-agent from the property text and a scratch worktree of the repository (the fourth round's sub-agents also read the checks and aimed at what they did not generate, DESIGN.md 11.2), compiles, passes the 81 '
+            'Every change below was written by an independent sub-agent from the property text and a scratch worktree of the repository (the sub-agents of the fourth round also read the checks and aimed at what they did not generate, DESIGN.md 11.2), compiles, passes the 81 '
             'existing tests, and comes with a demonstration that fails with it and passes without it (re-confirmed by '
             '`tools/verify_seed.sh`). `tools/sensitivity.py` regenerates this table.\n\n'
             '| seeded change | what it is / needs | caught by (quick tier) | run but quiet |\n|---|---|---|---|\n' + '\n'.join(rows) + '\n')
